@@ -407,7 +407,7 @@ def labels(r):
             if role == 'app':
                 out.append((t, sym('start')))
             continue
-        if kind == 'released' or kind == 'lis-begin':
+        if kind in ('released', 'clock') or kind == 'lis-begin':
             if role == 'worker' and any(e[0] == 'job-end' for e in evs):
                 out.append((t, sym('job-end')))
             continue
@@ -454,7 +454,7 @@ def labels(r):
             dropped = False
             if role == 'reader' and data[0] == 'M':
                 # do_unsubscription for an item without entry returns after the manager-lock region: no item-lock region follows
-                nxt = [x for x in r.trace if x['step'] > no and x['tid'] == st['tid'] and x['kind'] != 'released']
+                nxt = [x for x in r.trace if x['step'] > no and x['tid'] == st['tid'] and x['kind'] not in ('released', 'clock')]
                 dropped = not (nxt and nxt[0]['kind'] == 'acquire' and nxt[0]['data'][0] == 'I')
             if dropped:
                 out.append((t, sym('lock-drop')))
